@@ -55,6 +55,7 @@ func runC20(p *eng.Prog, r *eng.Report, tier string) {
 	c20ComparatorsAreOrders(c, "C20.10")
 	c20DecoderKeepsEveryValue(c, "C20.11")
 	c20ValuesOfTheFieldItself(c, "C20.12", f)
+	c20EveryFieldReported(c, "C20.13")
 	hname := "p1"
 	// ---- C20.4b the encoder's output buffer never overlaps the digest ----------
 	nenc := 0
@@ -965,4 +966,51 @@ func c20ValuesOfTheFieldItself(c *cx, id string, f *eng.Fn) {
 	}
 	scan(f)
 	c.r.Floor(id, "name-keyed form look-ups in AppendHash", n, 2)
+}
+
+// c20EveryFieldReported (C20.13): AppendHash learns the fields of a form from
+// form.Data.ForFields; a field that the iteration skips (no var, an unknown
+// type, ...) drops out of the verification string, and two forms that differ
+// only in that field collide. Each iteration of the loop over Data.fields in
+// ForFields calls the callback before the next iteration starts.
+func c20EveryFieldReported(c *cx, id string) {
+	f := c.fn(id, "form", "(*Data).ForFields")
+	if f == nil {
+		return
+	}
+	g := f.Graph()
+	n := 0
+	f.WalkBody(func(nd ast.Node) bool {
+		rs, ok := nd.(*ast.RangeStmt)
+		if !ok {
+			return true
+		}
+		if cls, okc := f.FieldClass(rs.X); !okc || cls != "form.Data.fields" {
+			return true
+		}
+		body, head, done, okp := g.LoopPoints(rs)
+		if !okp {
+			c.r.Unresolved(id, "loop over Data.fields in ForFields")
+			return true
+		}
+		n++
+		isCall := func(q eng.Point, x ast.Node) bool {
+			found := false
+			ast.Inspect(x, func(y ast.Node) bool {
+				if cl, ok := y.(*ast.CallExpr); ok {
+					if idn, ok := ast.Unparen(cl.Fun).(*ast.Ident); ok {
+						if v, ok := f.Info().ObjectOf(idn).(*types.Var); ok && f.Sig().Params().Len() > 0 && v == f.Sig().Params().At(0) {
+							found = true
+						}
+					}
+				}
+				return !found
+			})
+			return found
+		}
+		okw := g.MustPassBefore(body, head, isCall, nil) && g.MustPassBefore(body, done, isCall, nil)
+		c.r.Check(id, f, "every field is reported", "O: each iteration of ForFields over the form's fields calls the callback (the capabilities hash covers every field of a form, well-formed or not)", rs.Pos(), okw, "an iteration can skip the callback: the skipped field is missing from the verification string")
+		return true
+	})
+	c.r.Floor(id, "loops over Data.fields in ForFields", n, 1)
 }
